@@ -203,8 +203,10 @@ def case_liesel(case, res):
     b.set_model(gs.LieselInterface(model))
     b.set_initial_values(model.state)
     wrappers = []
-    for blk, k in named:
+    for j, (blk, k) in enumerate(named):
         wk = RecordingWrapper(k, strong)
+        if case["idx"] % 2:
+            wk.identifier = f"user{9 - j}_{blk}"     # user-chosen identifiers, not in alphabetical order
         wrappers.append((blk, wk))
         b.add_kernel(wk)
     b.positions_included = tracked
@@ -298,8 +300,10 @@ def case_dict(case, res):
     b.set_model(gs.DictInterface(lp))
     b.set_initial_values({"a": jnp.asarray(0.1, jnp.float32), "b": jnp.asarray([0.2, 0.3], jnp.float32), "c": jnp.asarray([0.0, 0.1, -0.2], jnp.float32)})
     ws = []
-    for blk, k in kernels:
+    for j, (blk, k) in enumerate(kernels):
         wk = RecordingWrapper(k, keys)
+        if case["idx"] % 2 == 0:
+            wk.identifier = f"user{9 - j}_{blk}"
         ws.append((blk, wk))
         b.add_kernel(wk)
     b.set_epochs(mk_epochs(case["spec"]))
